@@ -194,7 +194,7 @@ theorem no_down_in_up_step (s : St) (op : Op) (hs : SInv s) (b b' : Bool) (c : N
   apply step_elim s op hs (fun r => upEv b c ∈ r.2 → downEv b' c ∉ r.2)
   case upEvents =>
     intro c0 m l _ _ _ _ hl
-    rcases hl with ⟨_, rfl⟩ | ⟨x, _, rfl⟩ | ⟨x, t, e, _, rfl⟩ | ⟨n, _, rfl⟩ | ⟨n, _, rfl⟩ <;> simp [ev2, upEv]
+    rcases hl with ⟨_, rfl⟩ | ⟨x, _, rfl⟩ | ⟨x, t, e, _, rfl⟩ | ⟨n, _, rfl⟩ | ⟨n, _, rfl⟩ | ⟨x, _, rfl⟩ <;> simp [ev2, upEv]
   case sendSome =>
     intro d x c0 _ _
     simp only [sendRaw]
